@@ -313,8 +313,25 @@ def g_name(rng, first='abcXYZ_', rest='abcXYZ_-.09'):
     return rng.choice(first) + ''.join(rng.choice(rest) for _ in range(rng.randint(0, 5)))
 
 
+def tz_text(m: int) -> str:
+    """independent rendering of an offset in minutes (XSD canonical: 'Z' for 0)"""
+    if m == 0:
+        return 'Z'
+    a = abs(m)
+    return ('-' if m < 0 else '+') + f'{a // 60:02d}:{a % 60:02d}'
+
+
 def g_tz(rng):
-    return rng.choice(['', '', 'Z', '+00:00', '-05:00', '+14:00', '-14:00', '+14:01', '+05:30', '+5:30', 'z'])
+    r = rng.random()
+    if r < 0.25:
+        return ''
+    if r < 0.40:
+        return rng.choice(['Z', '+00:00', '-00:00', '+14:00', '-14:00', '-00:01', '-00:30', '-00:59', '+00:01', '+00:59',
+                           '-01:00', '+13:59', '-13:59'])
+    if r < 0.85:
+        m = rng.randint(-840, 840)
+        return tz_text(m) if m else rng.choice(['Z', '+00:00', '-00:00'])
+    return rng.choice(['+14:01', '-14:01', '+5:30', 'z', '+15:00', '+05:60', '-0:30', '+0530', '+24:00', '-00:60', '+05:3'])
 
 
 def g_year(rng):
@@ -552,6 +569,18 @@ def lexical_cases(run: Run, impl: Impl, cases: list) -> None:
                     run.disagree(Disagreement(case, impl=iv, spec=expect, what='is_valid-vs-constructor(path)',
                                               site=f'{t}.validate', tags=tags_v + tags_w + tags_p))
 
+        # ---- date/time family: the canonical string against an independently computed expectation
+        if kind == 'ok' and t in TZ_BASE:
+            exp = expected_date_canonical(t, s)
+            if exp is not None:
+                st.count('lex:date-canonical-expected')
+                try:
+                    got_c = str(val)
+                except Exception as e:
+                    got_c = 'ERR:OTHER:' + type(e).__name__
+                if got_c != exp:
+                    run.disagree(Disagreement(case, impl=got_c, spec=exp, what='date-canonical-string',
+                                              site=f'{t}.__str__ / Timezone', tags=tags_w))
         # ---- canonical string re-parsed: equal value, equal hash
         if kind == 'ok' and t not in ('QName',):
             try:
@@ -1090,6 +1119,135 @@ def cast_cases(run: Run, impl: Impl) -> None:
                                               site='_xpath2_constructors.py cast__*'))
 
 
+# ------------------------------------------------------------------------------ timezones
+TZ_BASE = {   # a canonical literal without timezone for every type that takes one
+    'time': '12:00:00', 'date': '2000-01-01', 'dateTime': '2000-01-01T12:00:00', 'dateTimeStamp': '2000-01-01T12:00:00',
+    'gYear': '2000', 'gYearMonth': '2000-02', 'gMonth': '--02', 'gMonthDay': '--02-29', 'gDay': '---31',
+}
+TZ_SUFFIX = r'(Z|[+-][0-9]{2}:[0-9]{2})$'
+
+
+def tz_minutes_of_text(t: str):
+    """independent reading of a timezone literal (harness side): minutes, sign applied to hours and minutes"""
+    import re
+    if t == 'Z':
+        return 0
+    m = re.fullmatch(r'([+-])([0-9]{2}):([0-9]{2})', t)
+    if not m:
+        return None
+    h, mi = int(m.group(2)), int(m.group(3))
+    if not ((h <= 13 and mi <= 59) or (h == 14 and mi == 0)):
+        return None
+    v = h * 60 + mi
+    return -v if m.group(1) == '-' else v
+
+
+def tz_cases(run: Run, impl: Impl) -> None:
+    import datetime
+    from elementpath.datatypes import Timezone
+    rng = run.rng
+    st = run.stats
+    offsets = list(range(-840, 841))
+    near = ['+14:01', '-14:01', '+15:00', '+5:30', '-0:30', '+05:3', '+05:60', 'z', '+0530', '+05-30', '+-5:30', '--05:30',
+            '+1:000', 'Z0', 'ZZ', '+24:00', '-00:60', '+00:0', '+٠٥:٣٠', '+05:30Z', 'Z+05:30', '+05:30:00', '+', '-', '+:',
+            '+05:', '+ 5:30', '-13:60', '+14:00:', '+014:00', '-14:0', '+13:5', '+1４:00']
+    for _ in range(run.scale(150, 1500)):
+        t = tz_text(rng.randint(-840, 840))
+        k = rng.randrange(len(t) + 1)
+        t = rng.choice([t[:k] + t[k + 1:], t[:k] + rng.choice('0123456789:+-Zz.') + t[k:],
+                        t[:k] + rng.choice('0123456789:+-Z') + t[k + 1:]])
+        if t and t[0] in '+-Zz' and not any(c.isspace() for c in t):
+            near.append(t)
+    zero_forms = ['Z', '+00:00', '-00:00']
+    texts = [tz_text(m) for m in offsets] + zero_forms + near
+    lines = [f'op=tzcanon M={m}' for m in offsets] + [f'op=tz S={cps(t)}' for t in texts]
+    ans = run.driver('C10', lines)
+
+    def parse(a):
+        f = dict(kv.split('=', 1) for kv in a.split(' ') if '=' in kv)
+        return f.get('model'), f.get('spec')
+
+    def uncps(x):
+        return '' if x == '_' else ''.join(chr(int(c)) for c in x.split(','))
+
+    # (1) canonical rendering of every offset
+    for i, m in enumerate(offsets):
+        mm, sp = parse(ans[i])
+        st.case(['tz-canon', m]); st.count('tz:canon')
+        want = tz_text(m)
+        try:
+            got = str(Timezone(datetime.timedelta(minutes=m)))
+        except Exception as e:
+            got = 'ERR:OTHER:' + type(e).__name__
+        if uncps(sp) != want:
+            run.disagree(Disagreement({'minutes': m}, impl=want, model=uncps(mm), spec=uncps(sp), what='tz-spec-self-check',
+                                      site='lean'))
+        if got != uncps(sp):
+            run.disagree(Disagreement({'minutes': m}, impl=got, model=uncps(mm), spec=uncps(sp), what='tz-canonical',
+                                      site='datetime.py Timezone.tzname'))
+        elif got != uncps(mm):
+            run.disagree(Disagreement({'minutes': m}, impl=got, model=uncps(mm), what='tz-canonical-model',
+                                      site='datetime.py Timezone.tzname'))
+    # (2) every literal / near miss: Timezone.fromstring via the xs:time constructor, value and canonical string
+    types_for = lambda t: list(TZ_BASE) if (t in zero_forms or rng.random() < 0.03) else ['time']
+    for j, t in enumerate(texts):
+        mm, sp = parse(ans[len(offsets) + j])
+        st.case(['tz-lex', t]); st.count('tz:lexical:' + ('ok' if sp.startswith('ok') else 'rejected'))
+        ref = tz_minutes_of_text(t)
+        ref_txt = 'ERR:V' if ref is None else f'ok:{ref}:{cps(tz_text(ref))}'
+        if sp != ref_txt:
+            run.disagree(Disagreement({'tz': t}, impl=ref_txt, model=mm, spec=sp, what='tz-spec-self-check', site='lean'))
+        for ty in types_for(t):
+            s = TZ_BASE[ty] + t
+            case = {'type': ty, 'string': s, 'cps': cps(s), 'tz': t}
+            kind, val = impl.direct(ty, s, None)
+            if kind == 'ok':
+                try:
+                    off = val.tzinfo.utcoffset(None)
+                    mins = off.days * 1440 + off.seconds // 60
+                    can = str(val)
+                    got = f'ok:{mins}:{cps(can[len(TZ_BASE[ty]):])}' if can.startswith(TZ_BASE[ty]) else f'ok:{mins}:?{cps(can)}'
+                except Exception as e:
+                    got = 'ERR:OTHER:' + type(e).__name__
+            else:
+                got = val
+            st.count(f'tz:ctor:{ty}')
+            if got != sp:
+                run.disagree(Disagreement(case, impl=got, model=mm, spec=sp, what='timezone-value-and-canonical-string',
+                                          site='datetime.py Timezone.fromstring / tzname'))
+            elif got != mm:
+                run.disagree(Disagreement(case, impl=got, model=mm, what='timezone-model',
+                                          site='datetime.py Timezone.fromstring / tzname'))
+            if kind == 'ok' and sp.startswith('ok'):
+                # fixed point on the real code: the canonical string re-parses to an equal value with an equal hash
+                k2, v2 = impl.direct(ty, str(val), None)
+                if k2 != 'ok' or not (v2 == val and hash(v2) == hash(val) and str(v2) == str(val)):
+                    run.disagree(Disagreement(case, impl=str(v2), spec=str(val), what='timezone-canonical-fixed-point',
+                                              site='datetime.py'))
+
+
+def expected_date_canonical(t: str, s: str):
+    """independent expected canonical string of a date/time literal whose non-timezone part is already canonical:
+    the literal with its timezone replaced by the canonical timezone.  None when the body may be re-written
+    (24:00:00, trailing fractional zeros, years that XSD versions print differently)."""
+    import re
+    x = xsd_collapse(s)
+    m = re.search(TZ_SUFFIX, x)
+    body, tz = (x[:m.start()], m.group(1)) if m else (x, '')
+    if '24:00' in body or re.search(r'\.[0-9]*0$', body) or re.search(r'\.$', body):
+        return None
+    if re.search(r'\.[0-9]{7,}$', body):     # more than microseconds: implementation-defined precision
+        return None
+    if t in ('date', 'dateTime', 'dateTimeStamp', 'gYear', 'gYearMonth'):
+        y = re.match(r'-?[0-9]+', body)
+        if y is None or body.startswith('-') or len(y.group(0)) != 4 or y.group(0) == '0000':
+            return None
+    if tz == '':
+        return body
+    mins = tz_minutes_of_text(tz)
+    return None if mins is None else body + tz_text(mins)
+
+
 # ------------------------------------------------------------------------------ translator
 def translate_tables(run: Run) -> dict:
     import re
@@ -1185,6 +1343,7 @@ def search(run: Run):
     canon_cases(sub, impl)
     binary_cases(sub, impl)
     cast_cases(sub, impl)
+    tz_cases(sub, impl)
     run.notes.append(f'search: {len(cases)} exhaustive small-scope lexical cases + canon + binary, '
                      f'{len(sub.disagreements)} disagreements')
     return sub.disagreements
@@ -1238,7 +1397,7 @@ def body(run: Run) -> int:
         'types without a Lean recogniser (dates, durations, QName, anyURI, language, Name/NCName family, string types) '
         'are compared path-against-path only',
         'xs:anyAtomicType, xs:NOTATION, xs:error have no usable constructor and are excluded']
-    run.prove(['EPV.Props.C10', 'EPV.Props.C10Tables'], ['EPV.Spec.XSDLexical', 'EPV.Model.Lexical'])
+    run.prove(['EPV.Props.C10', 'EPV.Props.C10Tables', 'EPV.Props.C10Tz'], ['EPV.Spec.XSDLexical', 'EPV.Model.Lexical'])
     try:
         impl = Impl()
         rng = run.rng
@@ -1261,6 +1420,7 @@ def body(run: Run) -> int:
         canon_cases(run, impl)
         binary_cases(run, impl)
         cast_cases(run, impl)
+        tz_cases(run, impl)
         matrix_cases(run, impl)
     except DriverError as e:
         run.broken.append('driver:C10 ' + str(e)[:300])
